@@ -51,6 +51,7 @@ OPS = ["+", "-", "*", "/", "%", "|", "&", "^", "<<", ">>", "rol", "ror"]
 OPNAME = {"+": "add", "-": "sub", "*": "mul", "/": "div", "%": "rem", "|": "or", "&": "and", "^": "xor",
           "<<": "shl", ">>": "shr", "rol": "rol", "ror": "ror"}
 CONDS = {"==": "eq", "!=": "ne", "<": "lt", ">": "gt", "<=": "le", ">=": "ge"}
+FUEL = {"quick": 800, "thorough": 4000}
 PTR_BYTES = 4   # ir2py stores pointers with struct format "i"
 RUNNER = os.path.join(os.path.dirname(os.path.dirname(os.path.abspath(__file__))), "harness", "c24_runner.py")
 
@@ -287,11 +288,86 @@ def build_form(form, t, arg=None):
         done.add_instruction(r)
         done.add_instruction(ir.Return(r))
         return m, "f", [t, t], ext
+    if form == "allocbranch":
+        # an alloca in a block that only one path executes; the caller keeps its own alloca across the call
+        g, ge, (ga,) = _fn(m, "g", t, [t])
+        work, join = ir.Block("g_work"), ir.Block("g_join")
+        g.add_block(work)
+        g.add_block(join)
+        zero = ir.Const(0, "zero", T)
+        ge.add_instruction(zero)
+        ge.add_instruction(ir.CJump(ga, "==", zero, join, work))
+        al = ir.Alloc("al", 2 * size, size)
+        work.add_instruction(al)
+        p = ir.AddressOf(al, "p")
+        work.add_instruction(p)
+        work.add_instruction(ir.Store(ga, p))
+        y = ir.Load(p, "y", T)
+        work.add_instruction(y)
+        work.add_instruction(ir.Jump(join))
+        r = ir.Phi("r", T)
+        join.add_instruction(r)
+        r.set_incoming(ge, ga)
+        r.set_incoming(work, y)
+        join.add_instruction(ir.Return(r))
+        f, e, (a, b) = _fn(m, "f", t, [t, t])
+        al0 = ir.Alloc("al0", size, size)
+        e.add_instruction(al0)
+        q0 = ir.AddressOf(al0, "q0")
+        e.add_instruction(q0)
+        e.add_instruction(ir.Store(a, q0))
+        c1 = ir.FunctionCall(g, [b], "c1", T)
+        e.add_instruction(c1)
+        c2 = ir.FunctionCall(g, [a], "c2", T)
+        e.add_instruction(c2)
+        x = ir.Load(q0, "x", T)
+        e.add_instruction(x)
+        s1 = ir.Binop(x, "+", c1, "s1", T)
+        e.add_instruction(s1)
+        s2 = ir.Binop(s1, "^", c2, "s2", T)
+        e.add_instruction(s2)
+        e.add_instruction(ir.Return(s2))
+        return m, "f", [t, t], ext
+    if form == "fnptr":
+        # call through a pointer that a phi selects among two functions
+        h1, e1, (x1,) = _fn(m, "h1", t, [t])
+        v1 = ir.Unop("-", x1, "v1", T)
+        e1.add_instruction(v1)
+        e1.add_instruction(ir.Return(v1))
+        h2, e2, (x2,) = _fn(m, "h2", t, [t])
+        v2 = ir.Unop("~", x2, "v2", T)
+        e2.add_instruction(v2)
+        e2.add_instruction(ir.Return(v2))
+        f, e, (a, b) = _fn(m, "f", t, [t, t])
+        yes, no, join = ir.Block("f_yes"), ir.Block("f_no"), ir.Block("f_join")
+        for blk in (yes, no, join):
+            f.add_block(blk)
+        e.add_instruction(ir.CJump(a, "<", b, yes, no))
+        yes.add_instruction(ir.Jump(join))
+        no.add_instruction(ir.Jump(join))
+        fp = ir.Phi("fp", ir.ptr)
+        join.add_instruction(fp)
+        fp.set_incoming(yes, h1)
+        fp.set_incoming(no, h2)
+        c = ir.FunctionCall(fp, [a], "c", T)
+        join.add_instruction(c)
+        join.add_instruction(ir.Return(c))
+        return m, "f", [t, t], ext
     raise ValueError(form)
 
 
+def rot_pairs(vals, bs, per):
+    """Every first operand with `per` second operands, rotating through bs so that all of bs is used."""
+    return [[a, bs[(per * k + j) % len(bs)]] for k, a in enumerate(vals) for j in range(per)]
+
+
+def sub_rng(ctx, what):
+    """Independent deterministic stream per corpus / case, so that a replay of one case draws the same values."""
+    return random.Random("%d:%s" % (ctx.seed, what))
+
+
 def forms_corpus(ctx, only=None):
-    rng = ctx.rng
+    rng = sub_rng(ctx, "forms")
     thorough = ctx.tier == "thorough"
     cases = []
     for t in INT_TYPES:
@@ -314,20 +390,26 @@ def forms_corpus(ctx, only=None):
             elif thorough:
                 bs = vals
             else:
-                bs = sorted(set(few + [rng.choice(vals), rng.choice(vals)]))
-            todo.append(("binop", op, OPNAME[op], [[a, b] for a in vals for b in bs]))
+                bs = sorted(set(few[:5] + [rng.choice(vals)]))
+            todo.append(("binop", op, OPNAME[op], rot_pairs(vals, bs, 8 if thorough else 3)))
         todo.append(("unop", "-", "neg", [[a] for a in vals]))
         todo.append(("unop", "~", "not", [[a] for a in vals]))
         for t2 in INT_TYPES:
             todo.append(("cast", t2, t2, [[a] for a in vals]))
         for c, cn in CONDS.items():
-            todo.append(("cond", c, cn, [[a, b] for a in vals for b in (vals if thorough else few)]))
+            todo.append(("cond", c, cn, [[a, a] for a in vals] + (rot_pairs(vals, vals, 4) if thorough else
+                                                                  rot_pairs(vals, few, 1))))
         todo.append(("mem", None, "x", [[a] for a in vals]))
         todo.append(("call", None, "x", [[a, b] for a in few for b in few]))
         todo.append(("literal", [rng.randrange(256) for _ in range(bits // 8)], "x", [[a] for a in few]))
         todo.append(("copyblob", None, "x", [[a] for a in few]))
-        todo.append(("loop", None, "x", [[a] for a in few]))
-        todo.append(("swap", None, "x", [[a, b] for a in few[:4] for b in few[:4]]))
+        pairs = [[a, b] for a in few[:4] for b in few[:4]]
+        if not thorough:
+            pairs = [pairs[k] for k in (1, 4, 6, 11) if k < len(pairs)]
+        todo.append(("loop", None, "x", [[a] for a in (few if thorough else few[:3])]))
+        todo.append(("swap", None, "x", pairs))
+        todo.append(("allocbranch", None, "x", pairs))
+        todo.append(("fnptr", None, "x", pairs))
         for form, arg, argname, vecs in todo:
             cid = "form.%s.%s.%s" % (form, t, argname)
             if only and only != cid:
@@ -337,7 +419,8 @@ def forms_corpus(ctx, only=None):
             except Exception as e:  # ppci.ir refused to build it: not this property's business
                 ctx.cov["forms_not_built"] = ctx.cov.get("forms_not_built", 0) + 1
                 continue
-            stubs = [{"name": n, "rets": [project_ir.limbs(rng.randrange(-5, 1 << 20), 4) for _ in range(4)]}
+            srng = sub_rng(ctx, cid)
+            stubs = [{"name": n, "rets": [project_ir.limbs(srng.randrange(-5, 1 << 20), 4) for _ in range(4)]}
                      for n, r in ext if r]
             stubs += [{"name": n, "rets": []} for n, r in ext if not r]
             cases.append({"id": cid, "module": m, "fn": fn, "vecs": vecs, "ext": stubs,
@@ -381,7 +464,7 @@ def features(m):
 
 
 def irgen_corpus(ctx, n, only=None):
-    rng = ctx.rng
+    rng = sub_rng(ctx, "irgen")
     nvec = 6 if ctx.tier == "quick" else 10
     cases = []
     from engines.c02 import int_vectors
@@ -403,7 +486,7 @@ def irgen_corpus(ctx, n, only=None):
             elif not feats:
                 continue   # identical to the core variant
             else:
-                cid += "[" + "+".join(feats) + "]"
+                cid += "(" + "+".join(feats) + ")"
             prng = random.Random(seed ^ 0x5EED)
             vecs = int_vectors(info["params"], prng, nvec)
             ext = [{"name": x, "rets": [project_ir.limbs(prng.randrange(-5, 40), 4) for _ in range(6)]}
@@ -415,9 +498,14 @@ def irgen_corpus(ctx, n, only=None):
 
 
 def c_corpus(ctx, n, only=None):
+    import logging
+
     from ppci import api
 
-    rng = ctx.rng
+    if not logging.getLogger().handlers:   # ppci's front-end warnings would go to stderr via logging.lastResort
+        logging.getLogger().addHandler(logging.NullHandler())
+
+    rng = sub_rng(ctx, "c")
     nvec = 6 if ctx.tier == "quick" else 10
     cases = []
     for _ in range(n):
@@ -516,7 +604,7 @@ def run_jobs(ctx, jobs, batch=80):
         jp = os.path.join(ctx.workdir, "c24_job_%d.json" % k)
         rp = os.path.join(ctx.workdir, "c24_res_%d.json" % k)
         with open(jp, "w") as f:
-            json.dump({"timeout": 5.0, "modules": part}, f)
+            json.dump({"timeout": 1.0, "modules": part}, f)
         try:
             p = subprocess.run([sys.executable, "-S", "-E", RUNNER, jp, rp], env=env, capture_output=True, text=True,
                                timeout=600)
@@ -532,7 +620,7 @@ def run_jobs(ctx, jobs, batch=80):
             # the culprit is recorded as such and the others are still judged
             for j in part:
                 with open(jp, "w") as f:
-                    json.dump({"timeout": 5.0, "modules": [j]}, f)
+                    json.dump({"timeout": 1.0, "modules": [j]}, f)
                 if os.path.exists(rp):
                     os.unlink(rp)
                 try:
@@ -564,9 +652,9 @@ def attach(cases, results):
             c["py"] = results[c["id"]]
         if all(o["outcome"].startswith(("error:load", "error:gen")) for o in c["py"]):
             # the module never got to run: the observation is the same for every argument vector,
-            # so two of them are handed to TLC (an error trace per vector would only cost time)
+            # so one of them is handed to TLC (an error trace per vector would only cost time)
             for k in ("py", "vecs", "argv"):
-                c[k] = c[k][:2]
+                c[k] = c[k][:1]
 
 
 def show_pv(v):
@@ -585,7 +673,7 @@ def show_word(w):
 def judge(ctx, cases, label):
     if not cases:
         return
-    slim = [{"id": c["id"], "mods": [c["pm"]], "fn": c["fn"], "argv": c["argv"], "ext": c["ext"], "fuel": 4000,
+    slim = [{"id": c["id"], "mods": [c["pm"]], "fn": c["fn"], "argv": c["argv"], "ext": c["ext"], "fuel": FUEL[ctx.tier],
              "py": c["py"]} for c in cases]
     path = ctx.trace_file(slim)
     nruns = sum(len(c["argv"]) for c in cases)
@@ -626,7 +714,7 @@ def judge(ctx, cases, label):
 def fcast_records(ctx, only=None):
     from ppci import ir
 
-    rng = ctx.rng
+    rng = sub_rng(ctx, "fcast")
     thorough = ctx.tier == "thorough"
     qs = set()
     for den in (1, 2, 4, 8):
@@ -641,12 +729,18 @@ def fcast_records(ctx, only=None):
         den = rng.choice([2, 4, 8, 16, 256])
         qs.add((rng.randrange(-(1 << 19), 1 << 19), den))
     qs = sorted(qs)
+    core_qs = [(11, 4), (-11, 4), (3, 2), (-3, 2), (1, 2), (5, 2), (-1, 2), (7, 8), (-7, 8), (2, 1), (-2, 1), (9, 4), (0, 1)]
     jobs, recs = [], []
     for src in ("f64", "f32"):
         for t in INT_TYPES:
             for mode in ("param", "const"):
                 cid = "fcast.%s.%s.%s" % (src, t, mode)
-                myqs = qs if mode == "param" else qs[:: max(1, len(qs) // (12 if thorough else 4))]
+                if thorough:
+                    myqs = qs if mode == "param" else qs[:: max(1, len(qs) // 12)]
+                elif mode == "param":
+                    myqs = sorted(set(core_qs + rng.sample(qs, 6)))
+                else:
+                    myqs = [core_qs[0], core_qs[1], rng.choice(qs)]
                 if mode == "param":
                     m = _mod("m")
                     f, e, (a,) = _fn(m, "f", t, [src])
@@ -703,6 +797,8 @@ class Engine:
     LEVEL = "model_checking"
 
     def run(self, ctx):
+        if ctx.only and ctx.only.get("tier") in ("quick", "thorough"):
+            ctx.tier = ctx.only["tier"]      # the corpus depends on the tier the case was found in
         thorough = ctx.tier == "thorough"
         ctx.rule("T: every generated module is projected (harness/project_ir.py), compiled by api.ir_to_python, and the "
                  "generated text is executed in a subprocess once per argument vector (fresh run-time, external "
@@ -734,9 +830,9 @@ class Engine:
             if only_id is None or only_id.startswith("form."):
                 cases += forms_corpus(ctx, only_id)
             if only_id is None or only_id.startswith("irgen."):
-                cases += irgen_corpus(ctx, 160 if thorough else 36, only_id.split("[")[0] if only_id else None)
+                cases += irgen_corpus(ctx, 120 if thorough else 24, only_id.split("(")[0] if only_id else None)
             if only_id is None or only_id.startswith("c."):
-                cases += c_corpus(ctx, 120 if thorough else 24, only_id)
+                cases += c_corpus(ctx, 80 if thorough else 10, only_id)
             cases, jobs = prepare(ctx, cases)
             results = run_jobs(ctx, jobs)
             attach(cases, results)
@@ -751,6 +847,9 @@ class Engine:
             chunk = 400
             for k in range(0, len(cases), chunk):
                 judge(ctx, cases[k:k + chunk], "generated Python vs IR.tla (%d)" % (k // chunk))
+            acts = ctx.cov["actions"]
+            ctx.cov["ir_executions"] = {k: acts.get("IRPy.Done" + k, 0)
+                                        for k in ("Defined", "Undefined", "OutOfModel", "Fuel", "Stuck")}
         # ---- E ----
         if only_id is None or only_id.startswith("fcast"):
             recs = fcast_records(ctx, only_key if only_id else None)
